@@ -420,6 +420,7 @@ async fn accept_loop(sh: Arc<Shared>, node: usize, l: TcpListener, shard_aware: 
 enum Out {
     Frame(Frame),
     Raw(Vec<u8>),
+    Fill { head: Vec<u8>, fill_len: u64, seed: u8, inserts: Vec<(u64, Vec<u8>)>, tail: Vec<u8> },
     Stall,
     Close(CutKind),
     Nothing,
@@ -661,6 +662,46 @@ impl Conn {
                     self.log(Ev::Stalled);
                 }
                 Out::Close(k) => return Some(cut(&self.lg(), wr, k).await),
+                Out::Fill { head, fill_len, seed, inserts, tail } => {
+                    self.log(Ev::RawFillOut {
+                        head: head.clone(),
+                        fill_len,
+                        seed,
+                        inserts: inserts.clone(),
+                        tail: tail.clone(),
+                    });
+                    let mut ok = wr.write_all(&head).await.is_ok();
+                    let mut off: u64 = 0;
+                    let mut chunk = vec![0u8; 64 * 1024];
+                    while ok && off < fill_len {
+                        let n = ((fill_len - off) as usize).min(chunk.len());
+                        for (i, b) in chunk[..n].iter_mut().enumerate() {
+                            *b = ((off + i as u64 + seed as u64) % 251) as u8;
+                        }
+                        for (at, bytes) in &inserts {
+                            // overlap of [at, at+len) with [off, off+n)
+                            let (a, e) = (*at, *at + bytes.len() as u64);
+                            let (lo, hi) = (a.max(off), e.min(off + n as u64));
+                            if lo < hi {
+                                chunk[(lo - off) as usize..(hi - off) as usize]
+                                    .copy_from_slice(&bytes[(lo - a) as usize..(hi - a) as usize]);
+                            }
+                        }
+                        ok = wr.write_all(&chunk[..n]).await.is_ok();
+                        off += n as u64;
+                    }
+                    if ok {
+                        ok = wr.write_all(&tail).await.is_ok();
+                    }
+                    let _ = wr.flush().await;
+                    if !ok {
+                        return Some(CloseBy::Client);
+                    }
+                    if let Some((_, k)) = job.cut {
+                        return Some(cut(&self.lg(), wr, k).await);
+                    }
+                    self.sent += 1;
+                }
                 Out::Raw(bytes) => {
                     // logged BEFORE the write: whatever the client does in reaction to these bytes is
                     // then guaranteed to come later in the trace
@@ -672,6 +713,7 @@ impl Conn {
                     if let Some((_, k)) = job.cut {
                         return Some(cut(&self.lg(), wr, k).await);
                     }
+                    self.sent += 1;
                 }
                 Out::Frame(f) => {
                     let enc = f.encode();
@@ -690,20 +732,20 @@ impl Conn {
                         return Some(cut(&self.lg(), wr, k).await);
                     }
                     self.sent += 1;
-                    // release held replies whose turn has come (in holding order)
-                    let mut i = 0;
-                    let mut released = Vec::new();
-                    while i < self.held.len() {
-                        if self.held[i].1 <= self.sent {
-                            released.push(self.held.remove(i).2);
-                        } else {
-                            i += 1;
-                        }
-                    }
-                    released.reverse();
-                    queue.extend(released);
                 }
             }
+            // release held replies whose turn has come (in holding order)
+            let mut i = 0;
+            let mut released = Vec::new();
+            while i < self.held.len() {
+                if self.held[i].1 <= self.sent {
+                    released.push(self.held.remove(i).2);
+                } else {
+                    i += 1;
+                }
+            }
+            released.reverse();
+            queue.extend(released);
         }
         None
     }
@@ -897,6 +939,9 @@ impl Conn {
                 Action::RawBody { opcode, body } => reply = Some(frame(opcode, body)),
                 Action::NoReply => reply = Some(Out::Nothing),
                 Action::Garbage(b) => reply = Some(Out::Raw(b)),
+                Action::RawFill { head, fill_len, seed, inserts, tail } => {
+                    reply = Some(Out::Fill { head, fill_len, seed, inserts, tail })
+                }
                 Action::Stall => reply = Some(Out::Stall),
                 Action::Close(k) => reply = Some(Out::Close(k)),
                 Action::Default => reply = Some(self.builtin(&ctx, sel.as_ref())),
